@@ -161,6 +161,11 @@ def out_of_range_ops(rng, fi, count=1):
     ops = []
     oor = gen.out_of_range_values
     ch = lambda xs: int(rng.choice(xs))
+    T_ = fi.tracecount
+    grid = (P1 if fi.is2d else P0 * P1)
+    for v in sorted(set([T_, T_ + 1, grid - 1, grid, grid + 3, 127, 128, 10 * T_ + 7, -T_ - 1, -5 * T_, -1, -2])):
+        if not (0 <= v < T_):
+            ops.append(('hdr', v))
     for _ in range(count):
         if fi.is2d:
             bt, bz = oor(n1, P1), oor(n2, P2)
@@ -226,6 +231,10 @@ def check_ops(ctx, model, sess, ops, props=('C02', 'C07', 'C14'), cold=True, tag
             if got[0] != 'ok':
                 if 'C02' in props:
                     ctx.fail(f'in-range read {op} did not return: {got}', {'file': desc, 'op': op})
+            elif op[0] == 'hdr':
+                if not readops.same(got[1], want[1]) and ('C02' in props or 'C14' in props):
+                    ctx.fail(f'trace header {op[1]} differs from the stored one', {'file': desc, 'op': op})
+                continue
             elif not readops.same(got[1], want[1]):
                 if 'C02' in props or 'C09' in props:
                     a, w = np.asarray(got[1]), np.asarray(want[1])
@@ -257,8 +266,9 @@ def check_ops(ctx, model, sess, ops, props=('C02', 'C07', 'C14'), cold=True, tag
                 ctx.stats['negative_ordinal_python_semantics'] += 1
             elif 'C14' in props:
                 if got[0] == 'ok':
-                    ctx.fail(f'out-of-range read {op} returned an array of shape {np.asarray(got[1]).shape} '
-                             f'instead of raising {want[1]}', {'file': desc, 'op': op})
+                    ctx.fail(f'out-of-range read {op} returned '
+                             + ('a header' if isinstance(got[1], dict) else f'an array of shape {np.asarray(got[1]).shape}')
+                             + f' instead of raising {want[1]}', {'file': desc, 'op': op})
                 elif got[0] == 'exc' or got[1] != want[1]:
                     ctx.fail(f'out-of-range read {op} raised {got[1]} instead of {want[1]}', {'file': desc, 'op': op})
         # ---- K: model vs implementation
